@@ -34,10 +34,10 @@ class SiteCheck(PropertyCheck):
         'extraction ExtrOcamlBasic only + coq/ocaml/driver.ml',
         'harness/c11_check.py, c11_site.py (generator, canonicalisation, oracles), impl/c11_crawl.py + c11_crawler.py '
         '(html.parser based crawler of the written files)',
-        'modelled not verified: the registry (parents, contents, mro, subclasses, baseobjects, parentMod, privacy class per '
-        'object, hasdocstring) is an INPUT observed from the real System after the run; twisted.web.template rendering, '
-        'docutils output (footnotes, #rst- ids, TOC), docstring cross-reference resolution (only the hrefs it yields are '
-        'checked by the crawler oracle), zope.interface pages, the compact (>50 submodules) module index',
+        'modelled not verified: the registry (parents, contents, mro, subclasses, baseobjects, parentMod, System.privacyClass per '
+        'object, hasdocstring, docstring source) is an INPUT observed from the real System after the run; the targets the '
+        'docstring linker resolves (o_xrefs / o_sum_xrefs) are an ORACLE recorded from the real linker; twisted.web.template '
+        'rendering, docutils output (footnotes, #rst- ids, TOC), class-signature links, zope.interface pages',
     ]
     assumptions = ['wf registry (C02): parents numbered before children, contents/parent consistent, roots are modules, only '
                    'modules/packages/classes contain objects (checked per observed registry by the verified wf_b and counted)',
@@ -162,6 +162,29 @@ class SiteCheck(PropertyCheck):
             if mo is not None:
                 m = dec(mo)
                 self.count('registries_wf' if m[4] else 'registries_not_wf')
+                # hypotheses of C11_hierarchy_anchor (wf_classes): subclasses consistent with baseobjects, classes
+                # registered in allobjects, no inheritance cycle
+                allids = set(v for _, v in reg['all'])
+                okc = True
+                for ci, co in enumerate(reg['objs']):
+                    if co['cls'] != 'C':
+                        continue
+                    if ci not in allids:
+                        okc = False
+                    for bn, bi in co.get('bases', []):
+                        if bi is not None and (reg['objs'][bi]['cls'] != 'C' or ci not in reg['objs'][bi].get('subclasses', [])):
+                            okc = False
+                    seen_c, stack_c = set(), [bi for _, bi in co.get('bases', []) if bi is not None]
+                    while stack_c:
+                        x = stack_c.pop()
+                        if x == ci:
+                            okc = False
+                            break
+                        if x in seen_c:
+                            continue
+                        seen_c.add(x)
+                        stack_c.extend(bi for _, bi in reg['objs'][x].get('bases', []) if bi is not None)
+                self.count('registries_wf_classes' if okc else 'registries_not_wf_classes')
                 mv, cv = S.model_view(m), S.crawl_view(reg, cr)
                 diff = S.diff_views(mv, cv)
                 self.count('entries_compared', len(cv['entries']))
